@@ -598,8 +598,16 @@ S_OFFLINE = 'sent: server id "-" (offline mode), no join made'
 S_NONASCII = 'sent: non-ASCII server id on the wire'
 S_REKEY = 'sent: login whose key encoding differs from that of the ' \
     'login before it on the same Connection object'
+S_NORM = 'sent: server id that a text normalisation (strip, case folding, ' \
+    'NFC/NFKC, dropping control characters) would alter'
+# ids on which the usual "harmless" clean-ups of a text are NOT the identity:
+# the hash is over the id exactly as the server sent it
+SENT_NORM = tuple(tuple(map(ord, t)) for t in (
+    ' srv', 'srv ', '\tsrv\n', '\u3000srv', 'srv\u00a0', ' - ', '-\n', ' ',
+    'SRV', 'Srv', 'e\u0301', '\u212b', '\ufb01', 'stra\u00dfe', '\x00srv',
+    'srv\x00', 'srv\r'))
 SENT_REQUIRED = [S_SAME, S_DIFF, S_AFTER_DROP, S_AFTER_PLAY, S_THIRD,
-                 S_EMPTY, S_OFFLINE, S_NONASCII, S_REKEY,
+                 S_EMPTY, S_OFFLINE, S_NONASCII, S_REKEY, S_NORM,
                  'sent: ' + K_CANON[5:], 'sent: ' + K_NONCANON[5:],
                  'sent: ' + C_NEG, 'sent: ' + C_POS]
 
@@ -660,6 +668,13 @@ def _sent_histories_canonical(ctx):
         for end in ('play', 'drop'):
             if ((sid, end),) not in quick:
                 quick.append(((sid, end),))
+    for sid in SENT_NORM:
+        if ((sid, 'play'),) not in quick:
+            quick.append(((sid, 'play'),))
+    # ... and after a login with the normal form of the same id (a memo keyed
+    # by a cleaned-up id would hand out the wrong hash)
+    quick.append(((A, 'play'), (SENT_NORM[0], 'play')))
+    quick.append(((SENT_NORM[0], 'play'), (A, 'play')))
     pairs = [(x, y) for x in (A, B, E, O) for y in (A, B, E, O)]
     if S not in (A, B, E, O):
         pairs.append((S, S))
@@ -823,6 +838,8 @@ def judge_sent(ctx, hist, version, useed, cl, encs=None):
             cl[S_NONASCII] += 1
         if not cps:
             cl[S_EMPTY] += 1
+        if cps in SENT_NORM:
+            cl[S_NORM] += 1
         if cps[:1] == (0xFEFF,):
             cl['sent: ' + P_FEFF] += 1
         if j >= 1:
@@ -1324,7 +1341,7 @@ def run(ctx):
     ctx.extra['posted_logins'] = n_posted
     ctx.extra['sent_server_ids'] = [id_text(c) for c in (
         SENT_A, SENT_B, SENT_EMPTY, SENT_OFF, sent_seed_id(ctx.seed),
-        SENT_F)]
+        SENT_F) + SENT_NORM]
     ctx.extra['server_id_max_length'] = maxlen
     ctx.extra['server_ids'] = n_ids
     ctx.extra['alphabet'] = [id_text([c]) for c in ALPHA]
